@@ -8,6 +8,7 @@ type HostSpec struct {
 	Name     string
 	Params   []string // "any", "string", "int64"
 	Variadic bool     // last entry of Params is the element type of the variadic tail
+	NilFunc  bool     // a nil function value: every call of it fails (its operands each evaluated at most once, in order)
 }
 
 var Hosts = map[string]*HostSpec{
@@ -33,4 +34,6 @@ var Hosts = map[string]*HostSpec{
 	"gsettle": {Name: "gsettle", Params: []string{}},                              // waits until the script's goroutines have ended
 	"gdone":   {Name: "gdone", Params: []string{}},                                // goroutine completion signal
 	"gwait":   {Name: "gwait", Params: []string{"any"}},                           // wait for n completion signals
+	"hnil1":   {Name: "hnil1", Params: []string{"any"}, NilFunc: true},            // nil value of a script-convention function type, one parameter
+	"hnil2":   {Name: "hnil2", Params: []string{"any", "any"}, NilFunc: true},     // the same, two parameters
 }
